@@ -94,6 +94,10 @@ func main() {
 					randomTask()
 				}
 			}
+			if s.Dead {
+				run.Count("timed-out-session")
+				s.Revive() // judge the pointers the live members converge to anyway
+			}
 			rounds := s.Repair(members, 12)
 			run.Count(hlib.F("repair-rounds:%d", rounds))
 			run.Count(hlib.F("final-members:%d", len(members)))
